@@ -27,13 +27,14 @@ LEVEL_NOTE = ("Partial: proof about a hand-written model tied to the code by dif
               "Modelled, not verified: Pebble as an ordered map with atomic batches whose crash state is a prefix of the committed batches (exercised on vfs.StrictMem), Pebble's checkpoint as 'the stored map' "
               "(its file format is opaque bytes: only chunking/reassembly is modelled), protobuf. Not in the model, checked by the harness only: that leader write path, follower apply loop, leader log replay and "
               "snapshot install use the same decoder and callback chain (routes follower / elected-leader / leader), and the follower's rewrite of the two term keys after a snapshot (values equal, wall-clock fields masked). "
+              "The model applies the entry timestamp as it is (no in-memory clamp or other hidden instance state: state = stored map + version counter + switch, all rebuilt by NewDB); an instance-lifetime dependence in the code shows as a route difference or, on one instance, as a model mismatch on the stored timestamps (timestamps are compared, only the two term keys are masked). "
               "Object lifetime is outside the model (the model has no pools or caches: apply is a function of the log by construction, c06_apply_depends_only_on / c06_reads_do_not_change_state): that process-global state shared between shards and between the read and write paths (vtprotobuf object pools, block cache) does not leak into a replica is covered only by the harness routes busy-node (other activity of the process runs from inside applyPut/applyDelete/applyDeleteRange; two consecutive StorageEntryFromVTPool() must be distinct objects) and reads-interleaved. "
               "st_notif_last (whether a notification read waits) is outside the compared state. Chunk counts/indexes are nat (Go int32: files of 2^31 chunks or more excluded).")
 TRUSTED = ["modelled not verified: Pebble v1.1.2 (ordered map, atomic batch, flush/crash semantics of vfs.StrictMem, Checkpoint), protobuf/vtprotobuf, the os file API used by the snapshot sender/loader"]
 ASSUMES = ["every application of the committed prefix succeeds (c06_refuted_after_failed_batch shows the hypothesis is needed; C13 is the property that makes it true)",
            "offsets and version ids are int64 values (as in Go)",
            "snapshot files have distinct names (a directory listing) and fewer than 2^31 chunks"]
-RULE = ("routes: one case = one committed log of 5-30 write requests of the C12 valid stream (plain/conditional/session/indexed/sequence puts, deletes, delete-ranges, session create/close batches, "
+RULE = ("routes: one case = one committed log of 5-30 write requests of the C12 valid stream (in 65% of the logs the entry timestamps are adversarial - going back by 1 or by a lot, equal runs, 0, values near 2^63 and 2^64 - and every route re-creates its instance right after the highest timestamp so far; plain/conditional/session/indexed/sequence puts, deletes, delete-ranges, session create/close batches, "
         "bulk ranges around DeleteRangeThreshold; 30% with notifications disabled) applied live (compared with the model) and on three more real kv.DB instances: close/reopen at random points, "
         "StrictMem crash to the last flush + replay from the stored commit offset, real Snapshot() shipped with chunk size in {3,7,64,1000,4096,1 MiB} + replay, and a replica that between any two entries also answers 0-5 reads of every kind (Get x5 comparison types with/without value, index Get/List/RangeScan, List, RangeScan, notification reads, ReadCommitOffset; sequence waiters, snapshots) compared after every entry with a replica that applied the log alone (reads-interleaved; every read answer compared with the model); and a replica on a 'busy node' whose UpdateOperationCallback hooks (before/after OnPut/OnDelete/OnDeleteWithEntry/OnDeleteRange) apply puts/overwrites/deletes on a second kv.DB and run metadata-only/full gets on both DBs and lists, followed by 4 overwrites in a row, compared after every entry with a quiet replica, with sampled pool-aliasing checks (busy-node); plus 4 sender and ~7 loader cases per log on generated "
         "directories (empty files, exact multiples, damaged streams) compared with Db/Snapshot.v. controllers: one case = one log fed to a real FollowerController (optionally restarted), to a fresh follower through "
